@@ -11,7 +11,10 @@
 //
 // Parts: A selection algebra through Client.ConfiguredRules over the whole ID universe (+ unknown-ID
 // corruptions, category nesting, deprecated == replacement); B lint configurations; C lint comment-ignore
-// placements x IDs x allow on/off/default; D breaking configurations x exclude-imports.
+// placements x IDs x allow on/off/default; D breaking configurations x exclude-imports (the image pair
+// contains declarations that moved between files, so annotations with two different file locations);
+// E module in a sub-directory; F section shapes (which keys a section consists of x where it is written);
+// G ignore_only maps with overlapping keys x document order x map iteration seed.
 package c06
 
 import (
@@ -68,6 +71,16 @@ type env struct {
 	tab    map[string]*tables // version + "/" + kind
 	cnt    *counters
 	caseNo atomic.Int64
+	// mapSeed >= 0: the process-wide map iteration seed in force (part G); written only between parallel loops.
+	mapSeed int
+}
+
+func (e *env) mapSeedPtr() *int {
+	if e.mapSeed < 0 {
+		return nil
+	}
+	s := e.mapSeed
+	return &s
 }
 
 func (e *env) tables(version, kind string) *tables { return e.tab[version+"/"+kind] }
@@ -142,7 +155,7 @@ func replay(raw json.RawMessage) (string, bool) {
 	if err != nil {
 		return err.Error(), false
 	}
-	e := &env{r: r, ctx: ctx, client: client, tab: map[string]*tables{}, cnt: &counters{m: map[string]int64{}}}
+	e := &env{r: r, ctx: ctx, client: client, tab: map[string]*tables{}, cnt: &counters{m: map[string]int64{}}, mapSeed: -1}
 	for _, v := range allVersions {
 		for _, kind := range []string{"lint", "breaking"} {
 			t, err := loadTables(ctx, client, v.Name, v.FV, kind)
@@ -166,6 +179,11 @@ func replay(raw json.RawMessage) (string, bool) {
 	case "deprecated":
 		partADeprecated(e)
 	default: // judge, mono: the union-minus oracle on the recorded configuration and comment variant
+		if vc.MapSeed != nil {
+			setMapSeed(uint64(*vc.MapSeed), true)
+			e.mapSeed = *vc.MapSeed
+			defer setMapSeed(0, false)
+		}
 		var sc *scene
 		if c.Type == "lint" {
 			var ok bool
@@ -202,6 +220,7 @@ type violationCase struct {
 	Expected []string          `json:"expected,omitempty"`
 	Observed []string          `json:"observed,omitempty"`
 	Detail   string            `json:"detail,omitempty"`
+	MapSeed  *int              `json:"map_iteration_seed,omitempty"` // part G: runtime map iteration seed of the case
 }
 
 func keysOf(as []bufx.Annotation) []string {
@@ -230,7 +249,11 @@ func run(r *evid.Run) {
 		"comment placement x comment ID x allow on/off/default; exclude-imports; versions) is rendered to buf.yaml text, parsed by buf and run " +
 		"on the fixture image(s); a case is distinct non-trivial when its normalised configuration (+ comment variant) is new and the model " +
 		"selects at least one rule that reports or has a suppressed annotation")
-	r.Assume("built-in rules only (no plugins, disable_builtin off); one module at '.'; ignore_unstable_packages off; " +
+	r.Assume("a breaking annotation has a current and/or an against (previous) file location; ignore, ignore_only and exclude-imports apply when either file matches " +
+		"(the behaviour of the pinned tree, taken as the meaning of 'suppressed by ignore'); which old file a moved declaration comes from is fixture knowledge")
+	r.Assume("v2: a module-level lint/breaking section with at least one key replaces the workspace-level section as a whole, one without keys leaves it in force; " +
+		"`disallow_comment_ignores: false` spells out the default and does not count as a key")
+	r.Assume("built-in rules only (no plugins, disable_builtin off); one module at '.' or in one sub-directory; ignore_unstable_packages off; " +
 		"rule/category tables (categories, default flag, deprecation, replacements) are taken from Client.AllRules/AllCategories and are not themselves checked against documentation, except MINIMAL<=BASIC<=STANDARD and deprecated==replacement which are checked on observed results")
 	r.Assume("an empty selection (e.g. use: [X], except: [X], or only a deprecated rule without replacement) is outside the property: buf answers with a system error 'resultRules was empty'; counted, not judged")
 	r.Assume("a comment ignore on a oneof is not on a descriptor ancestor of the oneof's fields; whether it suppresses field rules is counted as unspecified")
@@ -241,7 +264,7 @@ func run(r *evid.Run) {
 		r.Incomplete("cannot create check client: " + err.Error())
 		return
 	}
-	e := &env{r: r, ctx: ctx, client: client, tab: map[string]*tables{}, cnt: &counters{m: map[string]int64{}}}
+	e := &env{r: r, ctx: ctx, client: client, tab: map[string]*tables{}, cnt: &counters{m: map[string]int64{}}, mapSeed: -1}
 	for _, v := range allVersions {
 		for _, kind := range []string{"lint", "breaking"} {
 			t, err := loadTables(ctx, client, v.Name, v.FV, kind)
@@ -270,6 +293,8 @@ func run(r *evid.Run) {
 	}{
 		{"C_comment_ignores", func() { partC(e, vnames) }},
 		{"E_subdir_module", func() { partE(e) }},
+		{"F_section_shapes", func() { partF(e, vnames) }},
+		{"G_overlapping_ignore_only_keys", func() { partG(e, vnames) }},
 		{"A_selection", func() { partA(e) }},
 		{"D_breaking_grid", func() { partD(e, vnames) }},
 		{"B_lint_grid", func() { partB(e, vnames) }},
@@ -315,6 +340,9 @@ var requiredClauses = []string{
 	"comment.other_id_not_suppressed", "comment.prefix_related_id_cases",
 	"breaking.cases", "breaking.except_removed_annotation", "breaking.ignore_removed_annotation", "breaking.ignore_only_removed_annotation",
 	"breaking.exclude_imports_removed_annotation", "breaking.import_reported_without_exclude_imports",
+	"breaking.against_file_only_ignore_removed_annotation", "breaking.against_file_only_ignore_only_removed_annotation",
+	"breaking.against_file_only_import_removed_annotation", "breaking.annotation_without_current_file_reported",
+	"sections.cases", "overlap.cases",
 	"mono.pairs", "subdir.cases", "subdir.path_removed_annotation", "subdir.path_outside_or_nonmatching_kept_all",
 }
 
